@@ -9,11 +9,12 @@ import contracts.config_tabulation as CT
 import contracts.factories as FC
 import contracts.tablereaders as TRc
 import contracts.builders as BU
+import contracts.modifiers as MDc
 
 F_CP, F_MOD = CE.F_CP, CE.F_MOD
 FUNCTIONS = [(F_CP, '_TableFormSection._parse_data'), (F_CP, '_TableFormSection._parse_xy'), (F_MOD, '_Buck4_Spline_Factory.build_spline'), (F_MOD, '_Exp_Spline_Factory.build_spline'),
              (F_CP, '_TabulationCutoff._init_cutoff'), (FC.FILE, 'DLPOLY_PairTabulationFactory.extract_cutoffs'),
-             (F_CP, 'ConfigParser._convert_species_type'), (BU.FILE, 'Pair_Potentials_From_Tuples_Builder._create_potential'), (BU.FILE, 'Pair_Potentials_From_Tuples_Builder._init_potentials')]
+             (F_MOD, 'spline'), (F_MOD, 'trans'), (F_CP, 'ConfigParser._convert_species_type'), (BU.FILE, 'Pair_Potentials_From_Tuples_Builder._create_potential'), (BU.FILE, 'Pair_Potentials_From_Tuples_Builder._init_potentials')]
 CONFIG_FILES = scan.package_files('atsim/potentials/config') + ['atsim/potentials/_modifiers.py', 'atsim/potentials/tools/potable/__init__.py', 'atsim/potentials/tools/potable/_actions.py']
 
 def lemmas():
@@ -63,6 +64,12 @@ def lemmas():
     return out
 
 MUTANTS = [
+    (F_MOD, 'spline', "spline_type = getattr(pot2, 'potential_form', None)", 'spline_type = pot2.potential_form', 'raises/AttributeError'),
+    (F_MOD, 'spline', "if not pform.next.next.next is None:", "if False:", 'post'),
+    (F_MOD, 'spline', "if not pot2.start.start < pot3_old_start:", "if not pot2.start.start <= pot3_old_start:", 'post'),
+    (F_MOD, 'spline', "getattr(pot3, 'potential_form', pot3)", 'pot3.potential_form', 'raises/AttributeError'),
+    (F_MOD, 'trans', "if getattr(second_form, 'potential_form', None) != 'as.constant':", "if second_form.potential_form != 'as.constant':", 'raises/AttributeError'),
+    (F_MOD, 'trans', "if len(second_form.parameters) != 1:", "if len(second_form.parameters) > 1:", 'post'),
     (F_CP, 'ConfigParser._convert_species_type', "'atomic_number': int", "'atomic_number': float", 'post/atomic_number'),
     (F_CP, 'ConfigParser._convert_species_type', "except ValueError:", "except KeyError:", 'raises'),
     (F_CP, 'ConfigParser._convert_species_type', "'lattice_constant': float", "'lattice_constant': default", 'post/masses'),
@@ -80,7 +87,7 @@ MODULE_MUTANTS = [
 ]
 ENGINE_B_FUNCTIONS = [(F_CP, '_get_or_none'), (F_CP, 'ConfigParser._init_config_parser'), (F_CP, '_RawConfigParser.get'),
                       (F_CP, 'ConfigParser._pair_species_func'), (F_CP, 'ConfigParser._parse_eam_fs_density_line')]
-ASSUMPTIONS = ['A5/A6: configparser raises subclasses of configparser.Error (InterpolationError for place-holders); scipy raises ValueError for data it cannot interpolate; pyparsing raises ParseException (converted in _parse_multi_range)',
+ASSUMPTIONS = ['logging statements are dropped by the extraction (pyvc/extract.py): an exception raised while formatting a log message is not seen by Engine A; the oracle\'s catalogue of well-formed models (incl. splines with modifier parts) is the only guard', 'A5/A6: configparser raises subclasses of configparser.Error (InterpolationError for place-holders); scipy raises ValueError for data it cannot interpolate; pyparsing raises ParseException (converted in _parse_multi_range)',
                'escape freedom is established per KIND of may-raise site by enumeration of the sites in the current source (names, split-unpacking, text conversions, parser errors) plus contracts on the functions whose guards must be exact; subscripts and attribute reads on parsed tuples are not enumerated in this version']
 NOT_DECIDED = ['completeness beyond the enumerated site kinds and the finite option lists: bounded (oracle catalogue of malformation operators)']
 BOUNDED = [dict(name='catalogue of 45 malformation operators over well-formed models + 7 valid models + every documented target spelling, through the potable CLI', bound='the fixed catalogue (exhaustive over it)', technique='concrete oracle')]
